@@ -166,7 +166,7 @@ def apply(objs, st, ev):
     elif op == "set":
         a.set(st["i"], SCAL[st["x"]])
     elif op == "setitem":
-        a[st["i"]] = SCAL[st["x"]]
+        a[st["i"] - 6 if st.get("neg") else st["i"]] = SCAL[st["x"]]
     elif op == "setslice":
         v = np.array(PAL[st["k"]][3:6]) * 0.5
         lo = st["lo"]
